@@ -101,10 +101,10 @@ theorem firstDiv_append_not {w x : Nat} (pre : List Nat) (h : ¬ Mult w x) :
     simp only [List.cons_append, firstDiv]
     cases checkDiv w d <;> simp [ih]
 
-/-- the divisor the code tries last -/
-def lastDiv (m hdrC : Nat) (ver : IpVersion) : Nat :=
-  if hdrC > 0 then satAdd16 m hdrC
-  else match ver with | .v4 => satAdd16 m TcpConst.minTcp4 | .v6 => satAdd16 m TcpConst.minTcp6 | .any => 0
+/-- the divisors the code tries last (none when `checked_add` overflows) -/
+def lastDivs (m hdrC : Nat) (ver : IpVersion) : List Nat :=
+  if hdrC > 0 then chkAdd16 m hdrC
+  else match ver with | .v4 => chkAdd16 m TcpConst.minTcp4 | .v6 => chkAdd16 m TcpConst.minTcp6 | .any => []
 
 theorem mssDivs_eq {m : Nat} (ts : Bool) (h : 100 ≤ m) : mssDivs m ts = mssForms m ts := by
   unfold mssDivs mssForms
@@ -115,11 +115,19 @@ theorem mssDivs_eq {m : Nat} (ts : Bool) (h : 100 ≤ m) : mssDivs m ts = mssFor
 
 theorem mtuDivs_eq {m hdrC hdrS : Nat} (ts : Bool) (ver : IpVersion) (h : 100 ≤ m)
     (hver : (ver = .v4 ∧ hdrS = 40) ∨ (ver = .v6 ∧ hdrS = 60)) :
-    mtuDivs m hdrC ts ver = ([1500, 1500 - hdrS] ++ (if ts then [1500 - hdrS - 12] else [])) ++ [lastDiv m hdrC ver] := by
+    mtuDivs m hdrC ts ver = ([1500, 1500 - hdrS] ++ (if ts then [1500 - hdrS - 12] else [])) ++ lastDivs m hdrC ver := by
   have h1 : m > 0 := by omega
-  unfold mtuDivs lastDiv
+  unfold mtuDivs lastDivs
   rcases hver with ⟨rfl, rfl⟩ | ⟨rfl, rfl⟩ <;> by_cases hh : hdrC > 0 <;> cases ts <;>
     simp [h1, hh, TcpConst.ethMtu, TcpConst.minTcp4, TcpConst.minTcp6, TcpConst.tsSize]
+
+/-- with `total_header` 0 or the minimal header size the last divisor is the implied MTU, if it fits -/
+theorem lastDivs_min {m hdrC hdrS : Nat} (ver : IpVersion)
+    (hver : (ver = .v4 ∧ hdrS = 40) ∨ (ver = .v6 ∧ hdrS = 60)) (hh : hdrC = 0 ∨ hdrC = hdrS) :
+    lastDivs m hdrC ver = chkAdd16 m hdrS := by
+  unfold lastDivs
+  rcases hver with ⟨rfl, rfl⟩ | ⟨rfl, rfl⟩ <;> rcases hh with rfl | rfl <;>
+    simp [TcpConst.minTcp4, TcpConst.minTcp6]
 
 theorem mtuForms_eq (m hdrS : Nat) (ts : Bool) :
     mtuForms m hdrS ts = ([1500, 1500 - hdrS] ++ (if ts then [1500 - hdrS - 12] else [])) ++ [m + hdrS] := by
